@@ -464,6 +464,11 @@ void rcu_defer_unregister_thread(void)
 	_rcu_defer_barrier_thread();
 	free(URCU_TLS(defer_queue).q);
 	URCU_TLS(defer_queue).q = NULL;
+	/*
+	 * rcu_defer_barrier() leaves its head snapshot in last_head; clear
+	 * it so that this thread can register again.
+	 */
+	URCU_TLS(defer_queue).last_head = 0;
 	is_empty = cds_list_empty(&registry_defer);
 	mutex_unlock(&rcu_defer_mutex);
 
